@@ -17,14 +17,14 @@ META = {
     'technique': 'Coq proof (induction over the type grammar with inversion on each parser success path) on a hand-written '
                  'Gallina model of loaders.py/parsers.py + differential correspondence + direct conformance predicate on both engines',
     'design_ref': 'DESIGN.md section 4 C05',
-    'theorems': ['C05_v0_conforms_lax', 'C05_v0_partial', 'C05_refuted_tuple_short',
+    'theorems': ['C05_v0_conforms_lax', 'C05_v0_partial', 'C05_refuted_tuple_short', 'C05_refuted_union_none_first',
                  'C05_refuted_none_annotation', 'C05_load_hooks_table'],
     'tables': ['CoreDumpHooks'],
     'level_text': ('Proved in Coq for EVERY annotation of the grammar, EVERY oracle behaviour of the stdlib functions and EVERY '
                    'input value (no well-typedness hypothesis): whatever the default-engine loader model returns is a value of the '
                    'annotated type, up to exactly two leniencies (a `None` annotation keeps its input, a fixed tuple with optional '
-                   'members may come back short) - each proved to be a real violation of the '
-                   'strict statement by a witness (C05_refuted_*), replayed on the implementation as findings F45, F46; on the region '
+                   'members may come back short; Union[None, X] keeps its input through the None member) - each proved to be a real violation of the '
+                   'strict statement by a witness (C05_refuted_*), replayed on the implementation as findings F45, F46, F55; on the region '
                    'safe_ty the strict statement is proved (C05_v0_partial). The model is re-validated against fromdict on well-typed '
                    'and malformed documents on every run. The v1 engine has no model here: it is covered by the direct predicate '
                    '(independent conformance checker on every returned instance) and the malformed stream only.'),
@@ -34,10 +34,12 @@ META = {
                    'v1: direct predicate only (no theorem).'),
     'rule': ('class models: every leaf type x every container position (19 contexts) to depth 2 (quick) / 3 (thorough: a seed-rotated quarter of depth 3) in classes of <= 4 fields '
              '+ random class models (quick 60, thorough 500) + 12 regression models of repaired findings + models with two DIFFERENT Enum classes of one __name__ on different '
-             'fields (quick 8, thorough 40). Names: 30% from the wider snake grammar; Literals include same-typed numeric member sets (Literal[0,1,2], Literal[True]). '
+             'fields (quick 8, thorough 40) + classes with several fields whose annotations are equal but written differently (Union[None,X] / Optional[X] / X|None, List / list) '
+             'in every declaration order + Unions whose members are parametrised containers of every element type (list[str], dict[str,str], set[Decimal] ...) + nested '
+             'dataclass SUBCLASSES whose base class is loaded on its own first (history x inheritance, both engines). Names: 30% from the wider snake grammar; Literals include same-typed numeric member sets (Literal[0,1,2], Literal[True]). '
              'Per class: 1 well-typed document + k random mutations (quick 4, thorough 6: junk from a 40-value pool, keys dropped/renamed/added, lists truncated/extended/doubled) '
              '+ m systematic single-position mutations sampled from the enumeration over EVERY position (quick 6, thorough 10): scalar -> each ==-but-differently-typed value '
-             '(1 / 1.0 / True, "1" / 1), list -> one shorter / one longer, position -> null. Each document x {default, v1, from_json}; every document OBJECT is loaded twice '
+             '(1 / 1.0 / True, "1" / 1) and by a scalar of every OTHER JSON kind (retype), list -> one shorter / one longer, position -> null. Each document x {default, v1, from_json}; every document OBJECT is loaded twice '
              '(same outcome required) and compared with its deep copy afterwards. History axis: for half of the class models the well-typed document is written by the independent '
              'reference encoder so that the FIRST operation on the classes is a load (no dump before), for the other half it is asdict output. '
              'Non-trivial: the document differs from the well-typed one or the class has a container/union/class layer. Distinct: distinct (class digest | document digest | engine).'),
@@ -50,7 +52,7 @@ META = {
                     'Err EUnmodelled and are excluded from the model comparison (counted in the evidence)'],
 }
 
-FINDINGS = ['F45-short-tuple-with-optional-members', 'F46-none-annotation-accepts-anything']
+FINDINGS = ['F45-short-tuple-with-optional-members', 'F46-none-annotation-accepts-anything', 'F55-v0-union-none-first']
 
 
 def coq_eval_sharded(ctx, exprs, imports, tag='cases', shard=40):
@@ -171,7 +173,8 @@ def canon_show(s):
 def make_cases(ctx):
     cases = []
     r = ctx.sub_rng('sys')
-    g = Gen(r, {'neg_timedelta': False, 'nonfinite': False, 'ext_names': 0.3, 'wild_names': 0.1, 'same_named_enums': 0.4})
+    g = Gen(r, {'neg_timedelta': False, 'nonfinite': False, 'ext_names': 0.3, 'wild_names': 0.1, 'same_named_enums': 0.4,
+               'name_families': 0.3, 'spellings': 0.3, 'no_flag': True})
     items = systematic_types(g, 2 if ctx.tier == 'quick' else 3)
     if ctx.tier != 'quick':
         d3 = [it for it in items if it[0].count('<') == 2]
@@ -233,7 +236,8 @@ def make_cases(ctx):
         cases.append({'root': root, 'value': g5.value(root), 'seed': 1000 + ri, 'n_mut': 2, 'labels': ['samename'] * 2, 'src': 'samename'})
     r2 = ctx.sub_rng('rand')
     for j in range(60 if ctx.tier == 'quick' else 500):
-        g2 = Gen(r2, {'neg_timedelta': False, 'nonfinite': False, 'ext_names': 0.3, 'wild_names': 0.1, 'same_named_enums': 0.4})
+        g2 = Gen(r2, {'neg_timedelta': False, 'nonfinite': False, 'ext_names': 0.3, 'wild_names': 0.1, 'same_named_enums': 0.4,
+               'name_families': 0.3, 'spellings': 0.3, 'no_flag': True})
         nf = r2.choice([1, 2, 3, 4])
         tys = [g2.rand_type(r2.choice([1, 2, 3])) for _ in range(nf)]
         defaults = {}
@@ -254,15 +258,59 @@ def make_cases(ctx):
         tag_nested(root)
         cases.append({'root': root, 'value': g2.value(root), 'seed': r2.getrandbits(48), 'n_mut': n_mut,
                       'labels': ['rand'] * nf, 'src': 'random'})
+    # declaration styles: one class, several fields whose annotations are EQUAL but written differently
+    # (Union[None, X] / Optional[X] / Union[X, None] / X | None; List[int] / list[int]; Dict / dict), in every order
+    g6 = Gen(ctx.sub_rng('spell'), {'ext_names': 0.3, 'no_flag': True})
+    import itertools
+    xs_pool = [{'t': 'int'}, {'t': 'seq', 'k': 'list', 'e': {'t': 'int'}}, {'t': 'tok', 'k': 'date'}, {'t': 'str'},
+               {'t': 'dict', 'k': 'dict', 'kt': {'t': 'str'}, 'vt': {'t': 'int'}}, None]
+    si = 0
+    for X in xs_pool:
+        if X is None:
+            i0 = g6.fresh(); a0 = g6.names(1)[0]
+            X = {'t': 'data', 'id': i0, 'name': 'K%d' % i0, 'tag': None, 'fields': [{'name': a0, 'ty': {'t': 'int'}, 'alias': None, 'default': None}]}
+        forms = [{'t': 'union', 'es': [{'t': 'none'}, X]}, {'t': 'opt', 'e': X}, {'t': 'opt', 'e': X, 'spell': 'union'}, {'t': 'opt', 'e': X, 'spell': 'pep604'}]
+        if X['t'] in ('seq', 'dict'):
+            forms += [dict(X, spell='builtin'), dict(X, spell='typing')]
+        perms = list(itertools.permutations(range(len(forms)), 2)) if ctx.tier == 'quick' else list(itertools.permutations(range(len(forms)), 3))
+        g6.r.shuffle(perms)
+        for perm in perms[:6 if ctx.tier == 'quick' else 20]:
+            tys = [copy.deepcopy(forms[k]) for k in perm]
+            root = g6.root(tys, bases=['JSONWizard'] if si % 2 == 0 else [])
+            # keep the declaration order of the permutation (no defaults here)
+            cases.append({'root': root, 'value': g6.value(root), 'seed': 3000 + si, 'n_mut': 2, 'labels': ['spell'] * len(tys), 'src': 'spellings'})
+            si += 1
+    # Union members that are PARAMETRISED containers of every element type (str included) next to a scalar member
+    g7 = Gen(ctx.sub_rng('unioncont'), {'ext_names': 0.3, 'no_flag': True})
+    ui = 0
+    for el in ('str', 'int', 'float', 'bool', 'decimal', 'date', 'enum_str', 'any'):
+        for cont in ('list', 'dictval', 'set', 'vartuple'):
+            if cont == 'set' and el == 'any':
+                continue
+            inner = g7.wrap(cont, g7.leaf(el))
+            if inner is None:
+                continue
+            for other in ([{'t': 'int'}], [{'t': 'none'}, {'t': 'bool'}]):
+                es = [inner] + copy.deepcopy(other)
+                g7.r.shuffle(es)
+                if es[0]['t'] == 'none':
+                    es = es[1:] + es[:1]
+                root = g7.root([{'t': 'union', 'es': es}], bases=[])
+                v = g7.value(root)
+                v['xs'][0] = g7.value(inner)
+                cases.append({'root': root, 'value': v, 'seed': 4000 + ui, 'n_mut': 3, 'n_sys': 8, 'labels': ['unioncont'], 'src': 'unioncont'})
+                ui += 1
     rh = ctx.sub_rng('history')
     for c in cases:
+        if '"base"' in json.dumps(c['root']):
+            c['pre_load_bases'] = rh.random() < 0.6      # history x inheritance: base classes loaded alone first
         c.setdefault('n_sys', 6 if ctx.tier == 'quick' else 10)
         c['load_first'] = rh.random() < 0.5       # history: first load before / after the first dump of the classes
     return cases
 
 
 def strip(c, extra=None):
-    d = {k: c[k] for k in ('root', 'value', 'seed', 'n_mut', 'n_sys', 'extra_docs', 'load_first') if k in c}
+    d = {k: c[k] for k in ('root', 'value', 'seed', 'n_mut', 'n_sys', 'extra_docs', 'load_first', 'pre_load_bases') if k in c}
     if extra is not None:
         d['extra_docs'] = extra
         d['n_mut'] = 0
